@@ -14,6 +14,8 @@ import (
 	"strings"
 	"unsafe"
 
+	"golang.org/x/tools/go/ssa"
+
 	"gosx/smt"
 )
 
@@ -98,9 +100,19 @@ func init() {
 		"(*sync.RWMutex).RUnlock":         extRUnlock,
 		"(*sync.Once).Do":                 extOnceDo,
 		"(*sync.Once).doSlow":             unsupported("sync.Once.doSlow"),
-		"(*sync.WaitGroup).Add":           unsupported("sync.WaitGroup"),
-		"(*sync.WaitGroup).Wait":          unsupported("sync.WaitGroup"),
-		"(*sync.Pool).Get":                func(fr *frame, a []value) value { return iface{} },
+		"(*sync.WaitGroup).Add":           extWaitGroupAdd,
+		"(*sync.WaitGroup).Wait":          extWaitGroupWait,
+		"(*sync.Pool).Get":                extPoolGet,
+		"(*sync/atomic.Value).Store":      extAtomicValueStore,
+		"(*sync/atomic.Value).Load":       func(fr *frame, a []value) value { return (*a[0].(*value)).(structure)[0] },
+		"(*sync/atomic.Value).Swap":       func(fr *frame, a []value) value { old := (*a[0].(*value)).(structure)[0]; extAtomicValueStore(fr, a); return old },
+		"(*sync/atomic.Value).CompareAndSwap": unsupported("atomic.Value.CompareAndSwap"),
+		"(*sync.Map).Load":                unsupported("sync.Map"),
+		"(*sync.Map).Store":               unsupported("sync.Map"),
+		"(*sync.Map).LoadOrStore":         unsupported("sync.Map"),
+		"(*sync.Map).Delete":              unsupported("sync.Map"),
+		"(*sync.Map).Range":               unsupported("sync.Map"),
+		"(*sync.Cond).Wait":               unsupported("sync.Cond"),
 		"(*sync.Pool).Put":                func(fr *frame, a []value) value { return nil },
 		"sync/atomic.LoadInt32":           extAtomicLoad,
 		"sync/atomic.LoadInt64":           extAtomicLoad,
@@ -876,3 +888,49 @@ func extTimeNow(fr *frame, a []value) value {
 var _ = sort.Ints
 var _ = reflect.TypeOf
 var _ = unsafe.Pointer(nil)
+
+// ---- sync.WaitGroup (counter in a per-path side table), sync.Pool, atomic.Value
+
+func extWaitGroupAdd(fr *frame, a []value) value {
+	i := fr.i
+	p := a[0].(*value)
+	if i.waitGroups == nil {
+		i.waitGroups = map[*value]int{}
+	}
+	i.waitGroups[p] += int(i.intArg(a[1], "WaitGroup.Add"))
+	if i.waitGroups[p] < 0 {
+		panic(targetPanic{iface{i.runtimeErrorString, "sync: negative WaitGroup counter"}})
+	}
+	return nil
+}
+
+func extWaitGroupWait(fr *frame, a []value) value {
+	i := fr.i
+	p := a[0].(*value)
+	i.waitUntil(func() bool { return i.waitGroups[p] <= 0 }, "WaitGroup.Wait")
+	return nil
+}
+
+func extPoolGet(fr *frame, a []value) value {
+	st := (*a[0].(*value)).(structure)
+	newFn := st[len(st)-1] // sync.Pool's last field is New func() any
+	switch f := newFn.(type) {
+	case *ssa.Function:
+		if f == nil {
+			return iface{}
+		}
+	case nil:
+		return iface{}
+	}
+	return call(fr.i, fr, 0, newFn, nil)
+}
+
+func extAtomicValueStore(fr *frame, a []value) value {
+	v := a[1].(iface)
+	if v.t == nil {
+		panic(targetPanic{iface{fr.i.runtimeErrorString, "sync/atomic: store of nil value into Value"}})
+	}
+	st := (*a[0].(*value)).(structure)
+	fr.i.write(&st[0], v)
+	return nil
+}
